@@ -78,6 +78,8 @@ fn gen_card(r: &mut Rng, slow: bool) -> CardCfg {
         resp_hi: *r.pick(&[7u8, 7, 0, 5, 2, 1]),
         cmd59_illegal: false,
         cmd0_ignored: *r.pick(&[0u8, 0, 0, 0, 1, 2]),
+        cmd8_bad_echoes: *r.pick(&[0u8, 0, 0, 0, 0, 1, 2]),
+        cmd12_error_at_end: r.chance(1, 3),
         adversary: Adversary::None,
     }
 }
@@ -107,6 +109,8 @@ fn gen_ops(r: &mut Rng, cap: u64, len: usize) -> Vec<SdOp> {
             _ => r.range(2, 8) as u8,
         };
         let n = (n as u64).min(cap.max(1)) as u8;
+        // an empty slice of blocks is a legal argument too
+        let n = if r.chance(1, 40) { 0 } else { n };
         let max_start = cap.saturating_sub(n as u64);
         let block = match r.below(6) {
             0 => 0,
@@ -114,6 +118,8 @@ fn gen_ops(r: &mut Rng, cap: u64, len: usize) -> Vec<SdOp> {
             2 => r.range(0, 64.min(max_start)),
             _ => r.range(0, max_start),
         };
+        // (an empty transfer still names a block of the card)
+        let block = if n == 0 { block.min(cap.saturating_sub(1)) } else { block };
         ops.push(match r.below(14) {
             0 => SdOp::NumBlocks,
             1 => SdOp::NumBytes,
@@ -142,7 +148,7 @@ pub fn gen_case(prop: &str, seed: u64) -> SdCase {
             0 => r.range(0, 120),
             _ => r.range(0, est_bytes),
         };
-        card.adversary = match r.below(if prop == "C14" { 6 } else { 11 }) {
+        card.adversary = match r.below(if prop == "C14" { 6 } else { 14 }) {
             0 | 1 => {
                 let nb = match r.below(4) {
                     0 => 1,
@@ -176,6 +182,9 @@ pub fn gen_case(prop: &str, seed: u64) -> SdCase {
                 Adversary::None
             }
             9 if r.chance(1, 20) => Adversary::TooSlow,
+            11 => Adversary::StuckHigh { block_no: r.below(4) as u32, from: *r.pick(&[0u16, 1, 100, 256, 500, 511, 512, 513]) },
+            12 => Adversary::Cmd8BadEcho,
+            13 => Adversary::Cmd55Illegal,
             _ => Adversary::SilentFrom(k),
         };
         if let Adversary::Cmd13Error { r1, r2, .. } = &mut card.adversary {
@@ -191,7 +200,7 @@ pub fn gen_case(prop: &str, seed: u64) -> SdCase {
             ops.insert(0, SdOp::Write { block: r.range(0, cap.saturating_sub(8)), n: if matches!(card.adversary, Adversary::Cmd13Error { .. }) { 1 } else { r.range(1, 4) as u8 }, seed: 7 });
             ops.insert(1, SdOp::Write { block: r.range(0, cap.saturating_sub(8)), n: 1, seed: 8 });
         }
-        if matches!(card.adversary, Adversary::FlipBits { .. } | Adversary::BadToken { .. }) {
+        if matches!(card.adversary, Adversary::FlipBits { .. } | Adversary::BadToken { .. } | Adversary::StuckHigh { .. }) {
             ops.insert(0, SdOp::Read { block: r.range(0, cap.saturating_sub(8)), n: r.range(1, 4) as u8 });
             ops.insert(1, SdOp::Read { block: r.range(0, cap.saturating_sub(8)), n: 1 });
         }
@@ -325,7 +334,7 @@ pub fn sd_eval(prop: &'static str, case: &SdCase) -> CaseOutcome {
     let crc_refused = case.card.cmd59_illegal && case.use_crc;
     let adversarial = case.card.adversary != Adversary::None || case.bus_fail_at.is_some() || crc_refused;
     let unreliable_answers = matches!(case.card.adversary, Adversary::GarbageFrom(_) | Adversary::BusyFrom(_));
-    let wire_altered0 = matches!(case.card.adversary, Adversary::FlipBits { .. } | Adversary::SilentFrom(_) | Adversary::BusyFrom(_) | Adversary::GarbageFrom(_));
+    let wire_altered0 = matches!(case.card.adversary, Adversary::StuckHigh { .. } | Adversary::FlipBits { .. } | Adversary::SilentFrom(_) | Adversary::BusyFrom(_) | Adversary::GarbageFrom(_));
     let mut h = 0xcbf29ce484222325u64;
     let mut failed_once = false;
     let mut init_failed_last = false;
@@ -445,8 +454,8 @@ pub fn sd_eval(prop: &'static str, case: &SdCase) -> CaseOutcome {
                     }
                     // with CRC on, Ok means every block's CRC matched: the data must be the card's
                     // without CRC nothing lets the driver notice bytes altered on the wire: nothing is demanded then
-                    let wire_altered = matches!(case.card.adversary, Adversary::FlipBits { .. } | Adversary::SilentFrom(_) | Adversary::BusyFrom(_) | Adversary::GarbageFrom(_));
-                    let judge_data = !unreliable_answers && (case.use_crc || !wire_altered);
+                    let wire_altered = matches!(case.card.adversary, Adversary::StuckHigh { .. } | Adversary::FlipBits { .. } | Adversary::SilentFrom(_) | Adversary::BusyFrom(_) | Adversary::GarbageFrom(_));
+                    let judge_data = !unreliable_answers && (case.use_crc || !wire_altered) && !rg.card.borrow().corruption_undetectable;
                     if judge_data && in_range {
                         for (k, b) in bufs.iter().enumerate() {
                             if b.contents != expect_block(&twin, *block + k as u64) {
@@ -562,6 +571,9 @@ pub fn sd_eval(prop: &'static str, case: &SdCase) -> CaseOutcome {
                         Adversary::RejectWrite { .. } => push("C13", "rejected-write-reported-ok", opk, format!("{:?}", case.card.adversary), i),
                         Adversary::Cmd13Error { .. } if opk == "write" => push("C13", "status-error-after-write-ignored", opk, format!("{:?}", case.card.adversary), i),
                         Adversary::BadToken { token, .. } if *token != 0xFF && matches!(op, SdOp::Read { .. } | SdOp::NumBlocks | SdOp::NumBytes) => push("C13", "bad-token-accepted", opk, format!("{:#04x}", token), i),
+                        Adversary::StuckHigh { from, .. } if case.use_crc && !c.corruption_undetectable && matches!(op, SdOp::Read { .. } | SdOp::NumBlocks | SdOp::NumBytes) => {
+                            push("C13", "crc-mismatch-accepted", &format!("{}:stuck-high", opk), format!("the data line read 0xFF from byte {} of a block through its CRC, CRC on, call returned Ok", from), i);
+                        }
                         Adversary::FlipBits { bits, .. } if case.use_crc && matches!(op, SdOp::Read { .. } | SdOp::NumBlocks | SdOp::NumBytes) => {
                             // was the corruption one the CRC can see? recompute over what was sent
                             let _ = (&c, bits, sent_before);
@@ -586,7 +598,7 @@ pub fn sd_eval(prop: &'static str, case: &SdCase) -> CaseOutcome {
             // a host that re-initialises after a failed call has no better option than CMD0, busy or not
             rg.card.borrow_mut().strict_cmd0 = false;
         }
-        let transient = matches!(case.card.adversary, Adversary::FlipBits { .. } | Adversary::BadToken { .. } | Adversary::RejectWrite { .. } | Adversary::Cmd13Error { .. }) && case.bus_fail_at.is_none();
+        let transient = matches!(case.card.adversary, Adversary::StuckHigh { .. } | Adversary::FlipBits { .. } | Adversary::BadToken { .. } | Adversary::RejectWrite { .. } | Adversary::Cmd13Error { .. }) && case.bus_fail_at.is_none();
         if matches!(res, CallRes::Err(_)) && adversarial && transient {
             // a one-off fault: the card is healthy and in a defined state; the calls that follow must be a
             // legal conversation and must work (judged by the ordinary oracles below and by the checker)
@@ -675,7 +687,7 @@ pub fn sd_eval(prop: &'static str, case: &SdCase) -> CaseOutcome {
         }
         out.dev_calls = c.bytes;
         out.sim_seconds = rg.ns.get() / 1_000_000_000;
-        for (k, n) in [("flip_bits", matches!(case.card.adversary, Adversary::FlipBits { .. })), ("silent", matches!(case.card.adversary, Adversary::SilentFrom(_))), ("busy_forever", matches!(case.card.adversary, Adversary::BusyFrom(_))), ("garbage", matches!(case.card.adversary, Adversary::GarbageFrom(_))), ("reject_write", matches!(case.card.adversary, Adversary::RejectWrite { .. })), ("cmd13_error", matches!(case.card.adversary, Adversary::Cmd13Error { .. })), ("bad_token", matches!(case.card.adversary, Adversary::BadToken { .. })), ("too_slow", matches!(case.card.adversary, Adversary::TooSlow))] {
+        for (k, n) in [("flip_bits", matches!(case.card.adversary, Adversary::FlipBits { .. })), ("silent", matches!(case.card.adversary, Adversary::SilentFrom(_))), ("busy_forever", matches!(case.card.adversary, Adversary::BusyFrom(_))), ("garbage", matches!(case.card.adversary, Adversary::GarbageFrom(_))), ("reject_write", matches!(case.card.adversary, Adversary::RejectWrite { .. })), ("cmd13_error", matches!(case.card.adversary, Adversary::Cmd13Error { .. })), ("bad_token", matches!(case.card.adversary, Adversary::BadToken { .. })), ("too_slow", matches!(case.card.adversary, Adversary::TooSlow)), ("stuck_high", matches!(case.card.adversary, Adversary::StuckHigh { .. })), ("cmd8_bad_echo", case.card.adversary == Adversary::Cmd8BadEcho), ("cmd55_illegal", case.card.adversary == Adversary::Cmd55Illegal)] {
             if n && c.adversary_fired > 0 {
                 *out.faults.entry(k.to_string()).or_insert(0) += 1;
             }
@@ -897,6 +909,8 @@ pub fn enumerated_flip_case(i: u64) -> SdCase {
         resp_hi: 7,
         cmd59_illegal: false,
         cmd0_ignored: 0,
+        cmd8_bad_echoes: 0,
+        cmd12_error_at_end: false,
         adversary: Adversary::FlipBits { block_no: if multi { 1 } else { 0 }, bits: vec![bit] },
     };
     let ops = if multi { vec![SdOp::Read { block: 5 + i % 50, n: 3 }, SdOp::Read { block: 5 + i % 50, n: 3 }, SdOp::Write { block: 2, n: 2, seed: i as u32 }] } else { vec![SdOp::Read { block: i % 200, n: 1 }, SdOp::Read { block: i % 200, n: 1 }] };
